@@ -17,8 +17,10 @@ import (
 	"fmt"
 	"os"
 	"reflect"
+	"path"
 	"sort"
 	"strings"
+	"sync/atomic"
 	"time"
 
 	"github.com/onsi/gomega"
@@ -28,6 +30,9 @@ import (
 	"github.com/synnaxlabs/synnax/pkg/distribution/framer"
 	"github.com/synnaxlabs/synnax/pkg/distribution/mock"
 	"github.com/synnaxlabs/synnax/pkg/distribution/node"
+	storagemock "github.com/synnaxlabs/synnax/pkg/storage/mock"
+	"github.com/synnaxlabs/synnax/pkg/storage/ts"
+	"github.com/synnaxlabs/x/gorp"
 	xfs "github.com/synnaxlabs/x/io/fs"
 	"github.com/synnaxlabs/x/telem"
 )
@@ -62,6 +67,8 @@ type op struct {
 	Dead  []int    `json:"dead"`
 	Keys  []uint32 `json:"keys"`
 	Names []string `json:"names"`
+	ChansB []chanSpec `json:"chans_b"` // create_pair: the second request
+	Fault  uint32     `json:"fault"`   // fcreate / frename: the node whose next meta.json persist fails
 	Free  bool     `json:"free"`  // bump: free counter
 	Delta int64    `json:"delta"` // bump
 }
@@ -139,6 +146,7 @@ type stepOut struct {
 	Eng      map[string][]engChan `json:"eng"`   // node -> engine listing (sorted by key)
 	Gone     []goneOut            `json:"gone"`
 	Counters map[string][2]int64  `json:"counters"`
+	Fired    bool                 `json:"fired"` // fcreate / frename: the armed fault was consumed
 }
 
 type result struct {
@@ -159,19 +167,70 @@ type clusterT struct {
 	svc      map[uint32]*channel.Service
 	returned []channel.Channel // every channel ever handed back by a create on this cluster
 	deleted  []uint32          // keys that were in metadata once and were removed by a successful delete
+	faults   map[uint32]*atomic.Int32
+	stores   *storagemock.Cluster
+	engines  []*ts.DB
+	tsOf     map[uint32]*ts.DB
 	names    int
 }
 
 var ctx = context.Background()
 
+// faultFS is the file system of one node's time-series engine. While armed, the next attempt to
+// move a freshly written meta.json.tmp over meta.json (the step that persists a channel's meta
+// file on create and rename) fails, once.
+type faultFS struct {
+	xfs.FS
+	armed *atomic.Int32
+}
+
+var errInjected = fmt.Errorf("injected storage fault: cannot persist meta.json")
+
+func (f *faultFS) Sub(name string) (xfs.FS, error) {
+	sub, err := f.FS.Sub(name)
+	if err != nil {
+		return nil, err
+	}
+	return &faultFS{FS: sub, armed: f.armed}, nil
+}
+
+func (f *faultFS) Rename(oldPath, newPath string) error {
+	if path.Base(newPath) == "meta.json" && f.armed.CompareAndSwap(1, 0) {
+		return errInjected
+	}
+	return f.FS.Rename(oldPath, newPath)
+}
+
 func provision(n int, validate bool) *clusterT {
 	v := validate
-	c := mock.ProvisionCluster(ctx, n, distribution.LayerConfig{ValidateChannelNames: &v})
-	cl := &clusterT{c: c, n: n, validate: validate, svc: map[uint32]*channel.Service{}}
+	c := mock.NewCluster(distribution.LayerConfig{ValidateChannelNames: &v})
+	cl := &clusterT{c: c, n: n, validate: validate, svc: map[uint32]*channel.Service{},
+		faults: map[uint32]*atomic.Int32{}, tsOf: map[uint32]*ts.DB{}, stores: storagemock.NewCluster()}
+	for i := 0; i < n; i++ {
+		layer := cl.stores.Provision(ctx)
+		armed := &atomic.Int32{}
+		tsdb, err := ts.Open(ctx, ts.Config{FS: &faultFS{FS: xfs.NewMem(), armed: armed}, Dirname: "cesium"})
+		if err != nil {
+			panic(err)
+		}
+		layer.TS = tsdb
+		cl.engines = append(cl.engines, tsdb)
+		nd := c.Provision(ctx, distribution.LayerConfig{Storage: layer})
+		cl.faults[uint32(nd.Cluster.HostKey())] = armed
+		cl.tsOf[uint32(nd.Cluster.HostKey())] = tsdb
+	}
 	for k, nd := range c.Nodes {
 		cl.svc[uint32(k)] = nd.Channel
 	}
 	return cl
+}
+
+func (cl *clusterT) close() {
+	_ = cl.c.Close()
+	for _, e := range cl.engines {
+		_ = e.Close()
+	}
+	_ = cl.stores.Close()
 }
 
 func toOut(c channel.Channel) chanOut {
@@ -205,7 +264,7 @@ func (cl *clusterT) metaOf(nk uint32) ([]chanOut, error) {
 }
 
 func (cl *clusterT) engOf(nk uint32) []engChan {
-	db := cl.c.Nodes[node.Key(nk)].Storage.TS
+	db := cl.tsOf[nk]
 	u, v := db.VerifChannelKeys()
 	out := []engChan{}
 	add := func(keys []cesium.ChannelKey, kind string) {
@@ -286,7 +345,7 @@ func (cl *clusterT) probeGone(k uint32) goneOut {
 		if err == nil && len(chs) > 0 {
 			g.MetaFound = append(g.MetaFound, nk)
 		}
-		if _, err := nd.Storage.TS.RetrieveChannel(ctx, cesium.ChannelKey(k)); err == nil {
+		if _, err := cl.tsOf[uint32(nk)].RetrieveChannel(ctx, cesium.ChannelKey(k)); err == nil {
 			g.EngFound = append(g.EngFound, nk)
 		}
 		if w, err := nd.Framer.OpenWriter(ctx, framer.WriterConfig{Keys: channel.Keys{channel.Key(k)}, Start: 10 * telem.SecondTS}); err == nil {
@@ -297,11 +356,11 @@ func (cl *clusterT) probeGone(k uint32) goneOut {
 			g.DistI = append(g.DistI, nk)
 			_ = it.Close()
 		}
-		if w, err := nd.Storage.TS.OpenWriter(ctx, cesium.WriterConfig{Channels: []cesium.ChannelKey{k}, Start: 10 * telem.SecondTS}); err == nil {
+		if w, err := cl.tsOf[uint32(nk)].OpenWriter(ctx, cesium.WriterConfig{Channels: []cesium.ChannelKey{k}, Start: 10 * telem.SecondTS}); err == nil {
 			g.EngW = append(g.EngW, nk)
 			_ = w.Close()
 		}
-		if it, err := nd.Storage.TS.OpenIterator(cesium.IteratorConfig{Channels: []cesium.ChannelKey{k}, Bounds: telem.TimeRangeMax}); err == nil {
+		if it, err := cl.tsOf[uint32(nk)].OpenIterator(cesium.IteratorConfig{Channels: []cesium.ChannelKey{k}, Bounds: telem.TimeRangeMax}); err == nil {
 			g.EngI = append(g.EngI, nk)
 			_ = it.Close()
 		}
@@ -315,6 +374,8 @@ func classify(err error) string {
 	}
 	s := err.Error()
 	switch {
+	case strings.Contains(s, "injected storage fault"):
+		return "fault"
 	case strings.Contains(s, "node not found"):
 		return "no_node"
 	case strings.Contains(s, "cannot create channel") && strings.Contains(s, "already exists"):
@@ -426,6 +487,65 @@ func (cl *clusterT) metaKeys() map[uint32]bool {
 	return m
 }
 
+// specs resolves the channel specifications of a create request against the live metadata.
+func (cl *clusterT) specs(specs []chanSpec, st *stepOut) []channel.Channel {
+	chs := make([]channel.Channel, 0, len(specs))
+	for _, s := range specs {
+		idx := s.Idx
+		if s.IdxName != "" {
+			if c, ok := cl.byName(s.IdxName); ok {
+				idx = c.LocalKey
+			}
+		}
+		st.Idx = append(st.Idx, idx)
+		lkey := uint32(0)
+		if s.KeyName != "" {
+			// only the key of a live CALCULATED channel is re-submitted (a request carrying
+			// some other channel's key is outside what clients do and what the model assumes)
+			if c, ok := cl.byName(s.KeyName); ok && c.Expr != "" {
+				lkey = c.LocalKey
+			}
+		}
+		st.LKeys = append(st.LKeys, lkey)
+		chs = append(chs, channel.Channel{
+			Name: s.Name, Leaseholder: node.Key(s.Lease), DataType: telem.DataType(s.DT), IsIndex: s.IsIndex,
+			LocalIndex: channel.LocalKey(idx), Virtual: s.Virtual, Expression: s.Expr,
+			LocalKey: channel.LocalKey(lkey),
+		})
+	}
+	return chs
+}
+
+// arm makes the next meta.json persist of node n's engine fail; the returned function disarms
+// it and reports whether the fault was consumed.
+func (cl *clusterT) arm(n uint32) func() bool {
+	a := cl.faults[n]
+	if a == nil {
+		return func() bool { return false }
+	}
+	a.Store(1)
+	return func() bool { return !a.CompareAndSwap(1, 0) }
+}
+
+func (cl *clusterT) gwDB(gw uint32) *gorp.DB {
+	if nd, ok := cl.c.Nodes[node.Key(gw)]; ok {
+		return nd.DB
+	}
+	return cl.c.Nodes[node.Key(cl.nodeKeys()[0])].DB
+}
+
+// inTx runs f in a transaction on the gateway's cluster DB the way the API layer does: committed
+// when f succeeds, discarded when it fails. (Called on the Service directly, i.e. without a
+// transaction, the metadata write of a rename reaches the DB before the engine is asked.)
+func (cl *clusterT) inTx(gw uint32, f func(tx gorp.Tx) error) error {
+	tx := cl.gwDB(gw).OpenTx()
+	defer func() { _ = tx.Close() }()
+	if err := f(tx); err != nil {
+		return err
+	}
+	return tx.Commit(ctx)
+}
+
 func (cl *clusterT) run(o op) (st stepOut) {
 	svc := cl.svc[o.Gw]
 	if svc == nil {
@@ -434,30 +554,7 @@ func (cl *clusterT) run(o op) (st stepOut) {
 	var err error
 	switch o.Op {
 	case "create":
-		chs := make([]channel.Channel, 0, len(o.Chans))
-		for _, s := range o.Chans {
-			idx := s.Idx
-			if s.IdxName != "" {
-				if c, ok := cl.byName(s.IdxName); ok {
-					idx = c.LocalKey
-				}
-			}
-			st.Idx = append(st.Idx, idx)
-			lkey := uint32(0)
-			if s.KeyName != "" {
-				// only the key of a live CALCULATED channel is re-submitted (a request carrying
-				// some other channel's key is outside what clients do and what the model assumes)
-				if c, ok := cl.byName(s.KeyName); ok && c.Expr != "" {
-					lkey = c.LocalKey
-				}
-			}
-			st.LKeys = append(st.LKeys, lkey)
-			chs = append(chs, channel.Channel{
-				Name: s.Name, Leaseholder: node.Key(s.Lease), DataType: telem.DataType(s.DT), IsIndex: s.IsIndex,
-				LocalIndex: channel.LocalKey(idx), Virtual: s.Virtual, Expression: s.Expr,
-				LocalKey: channel.LocalKey(lkey),
-			})
-		}
+		chs := cl.specs(o.Chans, &st)
 		var opts []channel.CreateOption
 		if o.Retrieve {
 			opts = append(opts, channel.RetrieveIfNameExists())
@@ -489,6 +586,50 @@ func (cl *clusterT) run(o op) (st stepOut) {
 				}
 			}
 		}()
+	case "create_pair":
+		// two create requests in overlapping transactions on the gateway's DB, committed in
+		// reverse order
+		a, b := cl.specs(o.Chans, &st), cl.specs(o.ChansB, &st)
+		db := cl.gwDB(o.Gw)
+		txA, txB := db.OpenTx(), db.OpenTx()
+		err = svc.NewWriter(txA).CreateMany(ctx, &a)
+		if err == nil {
+			err = svc.NewWriter(txB).CreateMany(ctx, &b)
+		}
+		if err == nil {
+			err = txB.Commit(ctx)
+		}
+		if err == nil {
+			err = txA.Commit(ctx)
+		}
+		_ = txA.Close()
+		_ = txB.Close()
+		if err == nil {
+			st.Ret = []chanOut{}
+			for _, c := range append(a, b...) {
+				st.Ret = append(st.Ret, toOut(c))
+				cl.returned = append(cl.returned, c)
+			}
+		}
+	case "fcreate":
+		chs := cl.specs(o.Chans, &st)
+		disarm := cl.arm(o.Fault)
+		err = cl.inTx(o.Gw, func(tx gorp.Tx) error { return svc.NewWriter(tx).CreateMany(ctx, &chs) })
+		st.Fired = disarm()
+		if err == nil {
+			st.Ret = []chanOut{}
+			for _, c := range chs {
+				st.Ret = append(st.Ret, toOut(c))
+				cl.returned = append(cl.returned, c)
+			}
+		}
+	case "frename":
+		st.Keys = cl.resolve(o)
+		disarm := cl.arm(o.Fault)
+		err = cl.inTx(o.Gw, func(tx gorp.Tx) error {
+			return svc.NewWriter(tx).RenameMany(ctx, channel.KeysFromUint32(st.Keys), o.Names, false)
+		})
+		st.Fired = disarm()
 	case "rename":
 		st.Keys = cl.resolve(o)
 		err = svc.RenameMany(ctx, channel.KeysFromUint32(st.Keys), o.Names, false)
@@ -619,7 +760,7 @@ func runCase(c tcase) (res result) {
 			s := fmt.Sprint(r)
 			res.Panic = &s
 			if cur != nil {
-				_ = cur.c.Close()
+				cur.close()
 				cur = nil
 			}
 		}
@@ -629,7 +770,7 @@ func runCase(c tcase) (res result) {
 	}
 	// every case gets a fresh cluster: histories must start from a known state
 	if cur != nil {
-		_ = cur.c.Close()
+		cur.close()
 		cur = nil
 	}
 	cur = provision(c.Nodes, c.Validate)
@@ -644,7 +785,7 @@ func runCase(c tcase) (res result) {
 			break
 		}
 	}
-	_ = cur.c.Close()
+	cur.close()
 	cur = nil
 	return res
 }
